@@ -44,6 +44,11 @@ model lexer `lex` (and then `parseText`) reads back exactly what was written.
    * `lexOne_wf_iff`                  for well-formed `t`: `lexOne (t.text ++ rest) = .tok t |t.text| ↔ t.stops rest`
    * **`lex_render_iff`**             for well-formed tokens and white-space runs: the lexer returns the written
                                       tokens **iff** `Layout sep tks`;  `glue_iff`: `needsSpace` is exact
+7. completeness (every accepted text is a rendering)
+   * `lexOne_tok_wf`, `lex_tokens_wf`  the lexer only produces well-formed tokens
+   * `lex_is_render`                  `lex s = some toks` ⇒ `s = renderTks sep kinds` for an admissible `sep` read off `s`
+   * **`lex_iff_render`**             `(lex s).map kinds = some tks ↔ (∀ t ∈ tks, t.WF) ∧ ∃ sep, Layout sep tks ∧
+                                      renderTks sep tks = s` — the accepted texts are exactly the admissible renderings
 5. non-vacuity: `exText` rendered with four layouts (kernel-evaluated; `#guard`s are tests), and examples showing
    that `Layout`, `needsSpace` and `Tk.WF` cannot be dropped.
 -/
@@ -2111,6 +2116,407 @@ theorem glue_iff (a b : Tk) (ha : a.WF) (hb : b.WF) :
   simp [Layout, fitsFrom, sepOK, shift]
 
 
+/-! ## 7. completeness: every text the lexer accepts is an admissible rendering of its tokens -/
+
+/-! ### every token the lexer produces is well-formed -/
+
+theorem spanLen_split (p : Char → Bool) (cs : List Char) (h : spanLen p cs < cs.length) :
+    ∃ x post, cs = cs.take (spanLen p cs) ++ x :: post ∧ p x = false := by
+  induction cs with
+  | nil => simp at h
+  | cons c cs ih =>
+    simp only [spanLen] at h ⊢
+    split
+    · rename_i hc
+      rw [if_pos hc] at h
+      obtain ⟨x, post, h1, h2⟩ := ih (by simpa using h)
+      refine ⟨x, post, ?_, h2⟩
+      rw [List.take_succ_cons, List.cons_append, ← h1]
+    · rename_i hc
+      exact ⟨c, cs, by simp, by simpa using hc⟩
+
+theorem spanLen_drop_head (p : Char → Bool) (cs : List Char) :
+    ∀ x, (cs.drop (spanLen p cs)).head? = some x → p x = false := by
+  induction cs with
+  | nil => simp [spanLen]
+  | cons c cs ih =>
+    simp only [spanLen]
+    split
+    · simpa using ih
+    · rename_i hc
+      intro x hx
+      simp at hx; subst hx; simpa using hc
+
+theorem idLen_take_ident (cs : List Char) (h : 0 < idLen cs) : isIdent (cs.take (idLen cs)) = true := by
+  cases cs with
+  | nil => simp [idLen] at h
+  | cons c r =>
+    have hc := (idLen_pos_iff c r).mp h
+    simp only [idLen, hc, if_true]
+    rw [Nat.add_comm, List.take_succ_cons]
+    simp only [isIdent, hc, Bool.true_and, List.all_eq_true]
+    exact spanLen_take_all _ r
+
+theorem idLen_drop_head (cs : List Char) (h : 0 < idLen cs) :
+    ∀ x, (cs.drop (idLen cs)).head? = some x → isLetterOrDigit x = false := by
+  cases cs with
+  | nil => simp [idLen] at h
+  | cons c r =>
+    have hc := (idLen_pos_iff c r).mp h
+    simp only [idLen, hc, if_true]
+    rw [Nat.add_comm, List.drop_succ_cons]
+    exact spanLen_drop_head _ r
+
+theorem isIdent_no_dot {a : List Char} (h : isIdent a = true) : ∀ x ∈ a, x ≠ '.' := by
+  cases a with
+  | nil => simp
+  | cons c r =>
+    obtain ⟨h1, h2⟩ := isIdent_cons h
+    intro x hx
+    rcases List.mem_cons.mp hx with rfl | hx
+    · exact ne_of_pred h1 (by decide)
+    · exact ne_of_pred (h2 x hx) (by decide)
+
+theorem dotSplit_nodot (a : List Char) (h : ∀ x ∈ a, x ≠ '.') : dotSplit a = [a] := by
+  induction a with
+  | nil => rfl
+  | cons c r ih =>
+    have hc : c ≠ '.' := h c (by simp)
+    simp only [dotSplit]
+    rw [if_neg (by simpa using hc), ih (fun x hx => h x (List.mem_cons_of_mem _ hx))]
+
+theorem dotSplit_append_dot (a X : List Char) (h : ∀ x ∈ a, x ≠ '.') :
+    dotSplit (a ++ '.' :: X) = a :: dotSplit X := by
+  induction a with
+  | nil => simp [dotSplit]
+  | cons c r ih =>
+    have hc : c ≠ '.' := h c (by simp)
+    simp only [List.cons_append, dotSplit]
+    rw [if_neg (by simpa using hc), ih (fun x hx => h x (List.mem_cons_of_mem _ hx))]
+
+theorem dotSplit_joinDots (comps : List (List Char)) (hne : comps ≠ [])
+    (hall : ∀ a ∈ comps, isIdent a = true) : dotSplit (joinDots comps) = comps := by
+  induction comps with
+  | nil => exact absurd rfl hne
+  | cons a t ih =>
+    have ha := isIdent_no_dot (hall a (by simp))
+    cases t with
+    | nil => simp only [joinDots]; exact dotSplit_nodot a ha
+    | cons b t' =>
+      rw [joinDots_cons_cons, dotSplit_append_dot a _ ha,
+        ih (by simp) (fun x hx => hall x (List.mem_cons_of_mem _ hx))]
+
+/-- the shape of the prefix measured by `nsidLen`: an optional dot, then identifiers joined by dots -/
+theorem nsidLen_shape (fuel : Nat) (cs : List Char) :
+    nsidLen fuel cs = 0 ∨ ∃ comps, comps ≠ [] ∧ (∀ a ∈ comps, isIdent a = true) ∧
+      ((cs.head? = some '.' ∧ cs.take (nsidLen fuel cs) = '.' :: joinDots comps) ∨
+       (cs.head? ≠ some '.' ∧ cs.take (nsidLen fuel cs) = joinDots comps)) := by
+  induction fuel generalizing cs with
+  | zero => left; rfl
+  | succ f ih =>
+    -- the common part: after an identifier `a = take i r` (maximal), what `nsidLen f` adds
+    have key : ∀ r : List Char, 0 < idLen r →
+        ∃ comps, comps ≠ [] ∧ (∀ a ∈ comps, isIdent a = true) ∧
+          r.take (idLen r + nsidLen f (r.drop (idLen r))) = joinDots comps := by
+      intro r hi
+      have ha := idLen_take_ident r hi
+      rw [List.take_add]
+      rcases ih (r.drop (idLen r)) with h0 | ⟨comps, hne, hall, hsh⟩
+      · rw [h0]
+        exact ⟨[r.take (idLen r)], by simp, by simpa using ha, by simp [joinDots]⟩
+      · rcases hsh with ⟨_, ht⟩ | ⟨hh, ht⟩
+        · refine ⟨r.take (idLen r) :: comps, by simp, ?_, ?_⟩
+          · intro a hmem
+            rcases List.mem_cons.mp hmem with rfl | hmem
+            · exact ha
+            · exact hall a hmem
+          · rw [ht]
+            cases comps with
+            | nil => exact absurd rfl hne
+            | cons b t => rfl
+        · -- impossible: a further component without a dot would have extended the identifier
+          exfalso
+          by_cases h0 : nsidLen f (r.drop (idLen r)) = 0
+          · rw [h0] at ht
+            obtain ⟨c, r', hj, _⟩ := joinDots_head hne hall
+            rw [hj] at ht; simp at ht
+          · cases f with
+            | zero => exact h0 rfl
+            | succ f' =>
+              rw [nsidLen_succ_nodot _ _ hh] at h0
+              have hpos : 0 < idLen (r.drop (idLen r)) := by
+                by_cases hz : idLen (r.drop (idLen r)) = 0
+                · simp [hz] at h0
+                · omega
+              cases hd : r.drop (idLen r) with
+              | nil => rw [hd] at hpos; simp [idLen] at hpos
+              | cons x xs =>
+                rw [hd] at hpos
+                have hx := (idLen_pos_iff x xs).mp hpos
+                have := idLen_drop_head r hi x (by rw [hd]; rfl)
+                rw [isLetter_isLetterOrDigit hx] at this; cases this
+    by_cases h : cs.head? = some '.'
+    · obtain ⟨r, rfl⟩ := head?_eq_dot h
+      rw [nsidLen_succ_dot]
+      by_cases hi : idLen r = 0
+      · left; simp [hi]
+      · right
+        obtain ⟨comps, hne, hall, ht⟩ := key r (by omega)
+        refine ⟨comps, hne, hall, Or.inl ⟨rfl, ?_⟩⟩
+        simp only [beq_iff_eq, hi, if_false]
+        rw [Nat.add_assoc, Nat.add_comm 1, List.take_succ_cons, ht]
+    · rw [nsidLen_succ_nodot _ _ h]
+      by_cases hi : idLen cs = 0
+      · left; simp [hi]
+      · right
+        obtain ⟨comps, hne, hall, ht⟩ := key cs (by omega)
+        refine ⟨comps, hne, hall, Or.inr ⟨h, ?_⟩⟩
+        simp only [beq_iff_eq, hi, if_false, Nat.zero_add]
+        exact ht
+
+theorem take_ne_nil' {cs : List Char} {n : Nat} (h0 : 0 < n) (hn : n ≤ cs.length) : cs.take n ≠ [] := by
+  intro h
+  have := congrArg List.length h
+  simp only [List.length_take, List.length_nil] at this
+  omega
+
+theorem take_succ_of_split {rest a post : List Char} {x : Char} {k : Nat} (h : rest = a ++ x :: post)
+    (hk : a.length = k) : rest.take (k+1) = a ++ [x] := by
+  subst h; subst hk
+  rw [List.take_length_add_append]; rfl
+
+/-- **Every token produced by a lexer step is well-formed.** -/
+theorem lexOne_tok_wf {cs : List Char} {t : Tk} {n : Nat} (h : lexOne cs = .tok t n) : t.WF := by
+  cases cs with
+  | nil => cases h
+  | cons c rest =>
+    rw [lexOne_cons] at h
+    split at h
+    · cases h
+    split at h
+    · rename_i hc
+      cases h
+      simp only [Tk.WF, Tk.wf, String.toList_ofList]
+      rw [List.take_succ_cons]
+      simp only [isCommentLit, hc, Bool.true_and, List.all_eq_true]
+      exact spanLen_take_all _ rest
+    split at h
+    · rename_i hc
+      split at h
+      · rename_i hlt
+        cases h
+        obtain ⟨x, post, hsplit, hx⟩ := spanLen_split _ rest hlt
+        have hx' : x = '"' := by simpa using hx
+        subst hx'
+        simp only [Tk.WF, Tk.wf, String.toList_ofList]
+        rw [List.take_succ_cons]
+        have ht : rest.take (spanLen (fun x => x != '"') rest + 1) =
+            rest.take (spanLen (fun x => x != '"') rest) ++ ['"'] := by
+          have hlen : (rest.take (spanLen (fun x => x != '"') rest)).length = spanLen (fun x => x != '"') rest := by
+            rw [List.length_take]; omega
+          exact take_succ_of_split hsplit hlen
+        rw [ht]
+        simp only [isPathLit, hc, Bool.true_and, List.getLast?_append, List.getLast?_singleton,
+          Option.some_or, beq_self_eq_true, List.dropLast_concat, List.all_eq_true]
+        exact spanLen_take_all _ rest
+      · cases h
+    split at h
+    · rename_i hc
+      split at h
+      · rename_i hpos
+        cases h
+        simp only [Tk.WF, Tk.wf, String.toList_ofList]
+        rw [List.take_succ_cons]
+        simp only [isTargetLit, hc, Bool.true_and, Bool.and_eq_true, Bool.not_eq_true',
+          List.isEmpty_eq_false_iff, List.all_eq_true]
+        exact ⟨take_ne_nil' hpos (spanLen_le _ _), spanLen_take_all _ rest⟩
+      · split at h
+        · cases h; decide
+        · cases h
+    split at h
+    · split at h
+      · cases h; decide
+      · split at h
+        · cases h; decide
+        · cases h
+    split at h
+    · rename_i hc
+      split at h
+      · rename_i hgt
+        cases h
+        simp only [Tk.WF, Tk.wf, String.toList_ofList]
+        rcases nsidLen_shape (c :: rest).length (c :: rest) with h0 | ⟨comps, hne, hall, hsh⟩
+        · omega
+        · rcases hsh with ⟨hh, ht⟩ | ⟨hh, ht⟩
+          · rw [ht]
+            simp only [isNsid, beq_self_eq_true, if_true, dotSplit_joinDots comps hne hall, List.all_eq_true]
+            exact hall
+          · rw [ht]
+            obtain ⟨c', r', hj, hc'⟩ := joinDots_head hne hall
+            have hcd : (c' == '.') = false := beq_false_of_pred hc' (by decide)
+            rw [hj]
+            simp only [isNsid, hcd, Bool.false_eq_true, if_false]
+            rw [← hj, dotSplit_joinDots comps hne hall]
+            simp only [Bool.and_eq_true, List.all_eq_true, decide_eq_true_eq]
+            refine ⟨hall, ?_⟩
+            -- a single component would be a plain identifier: then `nsidLen ≤ idLen`
+            cases comps with
+            | nil => exact absurd rfl hne
+            | cons a t =>
+              cases t with
+              | cons b t' => simp
+              | nil =>
+                exfalso
+                simp only [joinDots] at ht
+                have ha := hall a (by simp)
+                have hsplit : c :: rest = a ++ (c :: rest).drop (nsidLen (c :: rest).length (c :: rest)) := by
+                  conv => lhs; rw [← List.take_append_drop (nsidLen (c :: rest).length (c :: rest)) (c :: rest)]
+                  rw [ht]
+                have hlen : a.length = nsidLen (c :: rest).length (c :: rest) := by
+                  rw [← ht, List.length_take]
+                  have := nsidLen_le (c :: rest).length (c :: rest)
+                  omega
+                have hi : idLen (c :: rest) ≥ a.length := by
+                  rw [hsplit, idLen_ident_gen a _ ha]; omega
+                omega
+      · split at h
+        · split at h
+          · rename_i hlit
+            cases h; exact hlit
+          · rename_i hpos hlit
+            cases h
+            simp only [Tk.WF, Tk.wf, String.toList_ofList, Bool.and_eq_true, Bool.not_eq_true']
+            exact ⟨idLen_take_ident _ hpos, by simpa using hlit⟩
+        · cases h; decide
+    · split at h
+      · rename_i hlit
+        cases h; exact hlit
+      · cases h
+
+/-- every token kind found by a successful scan is well-formed -/
+theorem scan_kinds_wf {cs : List Char} {ps : List Piece} (h : scan cs = some ps) : ∀ t ∈ kindsOf ps, t.WF := by
+  refine scan_induct (motive := fun _ ps => ∀ t ∈ kindsOf ps, t.WF) (by simp [kindsOf]) ?_ ?_ cs ps h
+  · intro cs n ps _ _ _ ih t ht
+    exact ih t (by simpa [kindsOf] using ht)
+  · intro cs t n ps _ hl _ ih t' ht
+    simp only [kindsOf, List.mem_cons] at ht
+    rcases ht with rfl | ht
+    · exact lexOne_tok_wf hl
+    · exact ih t' ht
+
+/-- **the lexer only produces well-formed tokens** -/
+theorem lex_tokens_wf {s : String} {toks : List Token} (h : lex s = some toks) : ∀ t ∈ toks, t.tk.WF := by
+  obtain ⟨ps, hps, _, _, _, hk⟩ := lex_reconstruct h
+  intro t ht
+  exact scan_kinds_wf hps t.tk (by rw [← hk]; exact List.mem_map_of_mem ht)
+
+/-! ### reading the layout off the pieces -/
+
+/-- the white-space runs of a piece list: the run before the first token (started with `cur`), and the runs
+    after each token (empty where two tokens touch) -/
+def sepsFrom : List Piece → List Char → List Char × List (List Char)
+  | [], cur => (cur, [])
+  | .ws w :: ps, cur => sepsFrom ps (cur ++ w)
+  | .tok _ _ :: ps, cur => (cur, (sepsFrom ps []).1 :: (sepsFrom ps []).2)
+
+/-- a list of runs as a layout function (empty beyond the list) -/
+def sepOfList (l : List (List Char)) : Nat → List Char := fun i => l.getD i []
+
+theorem shift_sepOfList (x : List Char) (l : List (List Char)) : shift (sepOfList (x :: l)) = sepOfList l := by
+  funext i; simp [shift, sepOfList]
+
+theorem sepsFrom_render (ps : List Piece) (cur : List Char) (hwf : ∀ p ∈ ps, p.WF) :
+    (sepsFrom ps cur).1 ++ renderFrom (sepOfList (sepsFrom ps cur).2) (kindsOf ps) = cur ++ flat ps := by
+  induction ps generalizing cur with
+  | nil => simp [sepsFrom, kindsOf, renderFrom, flat]
+  | cons p ps ih =>
+    have hwf' : ∀ q ∈ ps, q.WF := fun q hq => hwf q (List.mem_cons_of_mem _ hq)
+    cases p with
+    | ws w =>
+      simp only [sepsFrom, kindsOf, flat_cons, Piece.chars]
+      rw [ih (cur ++ w) hwf', List.append_assoc]
+    | tok t w =>
+      have ht : t.text.toList = w := (hwf (.tok t w) (by simp)).2
+      simp only [sepsFrom, kindsOf, flat_cons, Piece.chars, renderFrom, shift_sepOfList]
+      have e0 : sepOfList ((sepsFrom ps []).1 :: (sepsFrom ps []).2) 0 = (sepsFrom ps []).1 := by
+        simp [sepOfList]
+      rw [e0, ih [] hwf', ht, List.nil_append]
+
+theorem sepsFrom_ws (ps : List Piece) (cur : List Char) (hwf : ∀ p ∈ ps, p.WF) (hcur : ∀ x ∈ cur, isWs x = true) :
+    (∀ x ∈ (sepsFrom ps cur).1, isWs x = true) ∧ ∀ run ∈ (sepsFrom ps cur).2, ∀ x ∈ run, isWs x = true := by
+  induction ps generalizing cur with
+  | nil => simp [sepsFrom]; exact hcur
+  | cons p ps ih =>
+    have hwf' : ∀ q ∈ ps, q.WF := fun q hq => hwf q (List.mem_cons_of_mem _ hq)
+    cases p with
+    | ws w =>
+      simp only [sepsFrom]
+      apply ih _ hwf'
+      intro x hx
+      rcases List.mem_append.mp hx with hx | hx
+      · exact hcur x hx
+      · exact (hwf (.ws w) (by simp)).2 x hx
+    | tok t w =>
+      simp only [sepsFrom]
+      obtain ⟨h1, h2⟩ := ih [] hwf' (by simp)
+      refine ⟨hcur, ?_⟩
+      intro run hrun
+      rcases List.mem_cons.mp hrun with rfl | hrun
+      · exact h1
+      · exact h2 run hrun
+
+theorem sepOfList_ws (l : List (List Char)) (h : ∀ run ∈ l, ∀ x ∈ run, isWs x = true) :
+    ∀ i, ∀ x ∈ sepOfList l i, isWs x = true := by
+  intro i x hx
+  simp only [sepOfList, List.getD_eq_getElem?_getD] at hx
+  cases hi : l[i]? with
+  | none => rw [hi] at hx; simp at hx
+  | some run =>
+    rw [hi] at hx
+    exact h run (List.mem_of_getElem? hi) x hx
+
+/-- **Completeness: every accepted text is an admissible rendering of its tokens.** If `lex s = some toks`, the
+    token kinds are well-formed and there is an admissible layout `sep` (read off the text) such that `s` is
+    literally `renderTks sep` of the kinds. -/
+theorem lex_is_render {s : String} {toks : List Token} (h : lex s = some toks) :
+    (∀ t ∈ toks.map (·.tk), t.WF) ∧
+    ∃ sep, Layout sep (toks.map (·.tk)) ∧ renderTks sep (toks.map (·.tk)) = s := by
+  obtain ⟨ps, hps, hflat, hwf, _, hk⟩ := lex_reconstruct h
+  have hkw : ∀ t ∈ toks.map (·.tk), t.WF := by rw [hk]; exact scan_kinds_wf hps
+  refine ⟨hkw, ?_⟩
+  let l := sepsFrom ps []
+  have hr : renderTks (sepOfList (l.1 :: l.2)) (toks.map (·.tk)) = s := by
+    have := sepsFrom_render ps [] hwf
+    simp only [renderTks, shift_sepOfList]
+    have e0 : sepOfList (l.1 :: l.2) 0 = l.1 := by simp [sepOfList]
+    rw [e0, hk, this, List.nil_append, hflat, String.ofList_toList]
+  refine ⟨sepOfList (l.1 :: l.2), ?_, hr⟩
+  obtain ⟨h1, h2⟩ := sepsFrom_ws ps [] hwf (by simp)
+  rw [← lex_render_iff _ _ hkw (sepOfList_ws _ (by
+    intro run hrun
+    rcases List.mem_cons.mp hrun with rfl | hrun
+    · exact h1
+    · exact h2 run hrun)), hr, h]
+  rfl
+
+/-- **The lexer, characterised.** `lex s` succeeds with token kinds `tks` **iff** `tks` are well-formed and `s` is
+    `renderTks sep tks` for some admissible layout `sep`. -/
+theorem lex_iff_render (s : String) (tks : List Tk) :
+    (lex s).map (·.map (·.tk)) = some tks ↔
+      (∀ t ∈ tks, t.WF) ∧ ∃ sep, Layout sep tks ∧ renderTks sep tks = s := by
+  constructor
+  · intro h
+    cases hl : lex s with
+    | none => rw [hl] at h; cases h
+    | some toks =>
+      rw [hl] at h
+      have e : toks.map (·.tk) = tks := Option.some.inj h
+      rw [← e]
+      exact lex_is_render hl
+  · rintro ⟨hwf, sep, hl, rfl⟩
+    exact lex_render sep tks hwf hl
+
+
 /-! ### two canonical layouts, admissible for every token sequence -/
 
 /-- the *tight* layout: nothing between two tokens unless `needsSpace` demands it (then one blank; one line end
@@ -2268,6 +2674,11 @@ example : (lex (renderTks layWild [.id "a", .kw "=", .kw "enum", .kw "{", .kw "}
 example : advance 1 0 (renderTks layWild ([Tk.id "a", .kw "=", .kw "enum", .kw "{", .kw "}"].take 3)).toList = (6, 0) := by
   decide +kernel
 
+/-- `lex_iff_render` on a hand-written text: the source `exSmallSrc` of `C03Decl` *is* an admissible rendering
+    of the tokens `printFile exSmall` -/
+example : ∃ sep, Layout sep (printFile exSmall) ∧ renderTks sep (printFile exSmall) = exSmallSrc :=
+  ((lex_iff_render exSmallSrc (printFile exSmall)).mp exSmall_lex).2
+
 /-! the hypotheses are needed -/
 
 /-- `Layout` is needed (1): two words glued together are one word -/
@@ -2312,6 +2723,10 @@ example : FileShape.good { loads := [], contents := [.decl (.enum "record" [] []
 #print axioms lexOne_wf_iff
 #print axioms lex_render_iff
 #print axioms glue_iff
+#print axioms lexOne_tok_wf
+#print axioms lex_tokens_wf
+#print axioms lex_is_render
+#print axioms lex_iff_render
 #print axioms scan_renderFrom
 #print axioms lex_render_exact
 #print axioms lex_render
